@@ -27,7 +27,7 @@ class LevelAdvantage:
         advantage_index = mob_level - character_level + self._bias
         if advantage_index < 0:
             return self._advantage_table[0]
-        if advantage_index > len(self._advantage_table):
+        if advantage_index >= len(self._advantage_table):
             return 0.0
 
         return float(self._advantage_table[advantage_index])
